@@ -1,4 +1,4 @@
-import Xsm.Proofs.ActorsProps
+import Xsm.Proofs.ActorsInv
 /-!
 # C15 — actor messaging and supervision are exact
 
@@ -17,39 +17,50 @@ same definitions are compiled into `driver_actors` and compared with the real en
 `./check C15` (`harness/xsmverif/c15.py`), observation by observation.
 
 ## What is proved (for all systems, all inputs, no bounds)
-* §1 `spawn_creates_one_started_registered`, `spawn_leaves_the_rest_alone`
+* §1 `spawn_creates_one_started_registered` (whether or not the id is free), `spawn_leaves_the_rest_alone` (free
+  id), `respawn_stops_and_replaces_previous` (id in use: the previous holder and everything below it is
+  completely stopped before the new child exists, the id names the new child, every actor that still runs
+  keeps its children map — so no running actor becomes unreachable)
 * §2 the resolution order, one theorem per step: `resolve_systemId_first`, `resolve_exact_id_second`,
-  `resolve_unique_segment_third`, `ambiguous_is_dropped`, `resolve_source_key_fourth`, `resolve_parent_last`,
-  `resolve_nothing`; `sendTo_ambiguous_or_unresolved_changes_nothing`
+  `resolve_unique_segment_third`, `ambiguous_is_dropped`, `resolve_source_key_fourth` (UNIQUE source-key match),
+  `ambiguous_source_key_is_dropped`, `resolve_parent_last`, `resolve_nothing`;
+  `segment_match_looks_only_below_the_parent` (the segments that count are those after the parent's own id);
+  `sendTo_ambiguous_or_unresolved_changes_nothing`
 * §3 `deliver_touches_only_the_recipient`, `deliver_exactly_once_in_order` (sync: processed at once; async:
   queued in order and taken over in order at the next hand-over), `sendTo_actions_deliver_in_order`
 * §4 `cancel_cancels_only_that_id`, `cancelled_send_never_fires`, `cancel_unknown_id_is_noop`,
   `reused_id_supersedes`, `fresh_id_disturbs_no_other_send`
 * §5 `stop_makes_dead`, `parent_stop_stops_subtree` (every descendant completely stopped, every children
-  map in the subtree empty), `stop_child_removes_subtree` (direct child: gone from the children map and
-  from the registry under every systemId; whole subtree stopped)
-* §6 `nothing_delivered_after_stop`: an actor whose `stop()` has completed receives nothing, whatever
-  operations follow (`Quiet` is preserved by every operation of the model)
+  map in the subtree empty), `stop_unregisters_subtree` (no registry entry points to the stopped actor or to
+  ANY descendant), `stop_child_removes_subtree` (gone from the children map; the whole subtree stopped and
+  unregistered), `registry_never_holds_a_stopped_actor` (every reachable state, no hypothesis),
+  `systemId_never_addresses_a_stopped_actor`
+* §5b `reachable_inv`: the hypotheses `WF`, `Settled`, `Tidy` (and `RegLive`) of the supervision theorems hold at
+  EVERY observation point the model reaches from the started root, whatever the commands and operations, as
+  long as the run stays inside the modelled fragment (`oos = false`: no actor has stopped itself or an
+  ancestor through a systemId); `observation_invariant_is_inductive` (one operation);
+  `reachable_stop_stops_and_unregisters_subtree`, `reachable_stop_child_removes_subtree` (the §5 theorems
+  without those hypotheses)
+* §6 `nothing_delivered_after_stop`: an actor whose status is `stopped` — from the moment `stop()` has set it,
+  whatever is still queued for it — processes nothing, whatever operations follow; `stop_discards_the_queue`
+  (what is in the inbox when `stop()` is called is never processed), `stopped_actor_is_frozen_inside_a_macrostep`
 
-## What is FALSE of the code, stated as theorems about the model (= the code, by the tie) and registered
-## as open findings with replays
-* `registry_keeps_stopped_descendant` (F14): the general "…and the system registry" clause fails for
-  descendants of the stopChild target and for everything stopped through `stop()`
-* `async_stopped_actor_processes_queued_event` (F50): between `status := stopped` and the cancellation of
-  its run loop an async actor with children still processes one queued event
-* `respawned_id_orphans_previous_actor` (F51): a second spawn under a used explicit id leaves the first
-  child running, unlisted, and untouched by the parent's `stop()`
+## Repaired defects, shown on the witnesses that used to exhibit them (`decide`, same inputs as the findings)
+* `registry_keeps_stopped_descendant_fixed` (F14), `async_stopped_actor_processes_queued_event_fixed` (F50),
+  `respawned_id_orphans_previous_actor_fixed` (F51), `source_key_first_of_many_wins_fixed` (F53),
+  `segment_match_sees_parents_own_segments_fixed` (F54)
+
+## What is FALSE of the code, stated as a theorem about the model (= the code, by the tie), open finding
 * `sync_lazy_spawn_child_not_started` (F52): sync engine, non-blocking spawn, watcher thread not yet run:
-  the child is not started when the spawning action returns, an immediate send is dropped
-* `source_key_first_of_many_wins` (F53), `segment_match_sees_parents_own_segments` (F54): the two addressing
-  defects (no ambiguity check in the source-key fallback; the parent's own id segments take part in the
-  bare-key match)
+  the child is not started when the spawning action returns, an immediate send is dropped;
+  `sync_lazy_respawn_previous_not_started`: for the same reason a spawn under the id of a not-yet-started
+  child cannot stop it (the repair of F51 applies to started children)
 
 ## Only validated (differentially / by the monitor), not proved
 * that the model IS the code (tie: 0 disagreements on every explored op sequence, both engines);
-* the hypotheses `WF`, `Settled`, `Tidy` of §5 are invariants of every reachable observation point: the
-  driver evaluates their decidable form `invB` (sound by `invB_sound`) at every observation of every
-  explored run and the check fails if it is ever false; they are not proved to be inductive;
+* (the hypotheses `WF`, `Settled`, `Tidy` of §5 are now PROVED invariant, `reachable_inv`; the driver still
+  evaluates their decidable form `invB` — sound by `invB_sound` — at every observation of every explored run
+  and the check fails if it is ever false: a cross-check of the proof's reading of the model against the code);
 * exactly-once / addressee-only / warnings at the level of the real interpreters: the monitor of
   `c15_impl.py` (independent reference resolution on the live objects).
 
@@ -70,21 +81,24 @@ open XSM XSM.Actors
     One actor object is added; it runs (`startedAtSpawn`: always in the async engine; sync engine: blocking
     spawn, or the watcher thread scheduled at once), carries the id of the scheme `<parent id>:<explicit id>`
     / `<parent id>:<key>:<fresh>`, is the parent's child under exactly that id, is recorded with its source
-    key, and the registry maps the requested systemId to it. -/
-theorem spawn_creates_one_started_registered (s : Sys) (p : Nat) (key : String) (eid sid : Option String) (blocking : Bool)
-    (hp : p < s.actors.length) (hstart : startedAtSpawn s blocking = true) :
-    (spawn s p key eid sid blocking).actors.length = s.actors.length + 1 ∧
-    ((spawn s p key eid sid blocking).get s.actors.length).status = .running ∧
-    ((spawn s p key eid sid blocking).get s.actors.length).id = mkId (s.get p).id key eid s.fresh ∧
-    ((spawn s p key eid sid blocking).get s.actors.length).parent = some p ∧
-    ((spawn s p key eid sid blocking).get s.actors.length).received = [] ∧
-    dlookup (mkId (s.get p).id key eid s.fresh) ((spawn s p key eid sid blocking).get p).kids = some s.actors.length ∧
-    dlookup (mkId (s.get p).id key eid s.fresh) ((spawn s p key eid sid blocking).get p).sources = some key ∧
-    (∀ x, sid = some x → dlookup x (spawn s p key eid sid blocking).registry = some s.actors.length) := by
-  have ⟨ha, hr⟩ := spawn_actors s p key eid sid blocking
-  have hg : ∀ u, (spawn s p key eid sid blocking).get u = (spawnCore s p key eid sid blocking).get u := get_congr ha
-  have ⟨c1, c2, c3, c4, c5, _, _⟩ := spawnCore_spec s p key eid sid blocking hp
-  rw [ha, hr, hg, hg, c2]
+    key, and the registry maps the requested systemId to it. Holds whether or not the id was in use. -/
+theorem spawn_creates_one_started_registered (busy : Option Nat) (s : Sys) (p : Nat) (key : String) (eid sid : Option String)
+    (blocking : Bool) (hp : p < s.actors.length) (hstart : startedAtSpawn s blocking = true) :
+    (spawn busy s p key eid sid blocking).actors.length = s.actors.length + 1 ∧
+    ((spawn busy s p key eid sid blocking).get s.actors.length).status = .running ∧
+    ((spawn busy s p key eid sid blocking).get s.actors.length).id = mkId (s.get p).id key eid s.fresh ∧
+    ((spawn busy s p key eid sid blocking).get s.actors.length).parent = some p ∧
+    ((spawn busy s p key eid sid blocking).get s.actors.length).received = [] ∧
+    dlookup (mkId (s.get p).id key eid s.fresh) ((spawn busy s p key eid sid blocking).get p).kids = some s.actors.length ∧
+    dlookup (mkId (s.get p).id key eid s.fresh) ((spawn busy s p key eid sid blocking).get p).sources = some key ∧
+    (∀ x, sid = some x → dlookup x (spawn busy s p key eid sid blocking).registry = some s.actors.length) := by
+  have ⟨e, hst, _, heq, hid, hsa⟩ := spawn_eq busy s p key eid sid blocking
+  have hn : e.actors.length = s.actors.length := hst.2.2.2.1
+  have ⟨ha, hr⟩ := spawnFresh_actors e p key eid sid blocking
+  have hg : ∀ u, (spawnFresh e p key eid sid blocking).get u = (spawnCore e p key eid sid blocking).get u := get_congr ha
+  have ⟨c1, c2, c3, c4, c5, _, _⟩ := spawnCore_spec e p key eid sid blocking (by rw [hn]; exact hp)
+  simp only [hn, hid, hsa] at c1 c2 c3 c4 c5
+  rw [heq, ha, hr, hg, hg, c2]
   exact ⟨c1, by simp [newActor, hstart], rfl, rfl, rfl, c3, c4, c5⟩
 
 /-- the id scheme -/
@@ -92,37 +106,82 @@ theorem spawn_id_scheme (pid key e : String) (n : Nat) :
     mkId pid key (some e) n = pid ++ ":" ++ e ∧ mkId pid key none n = pid ++ ":" ++ key ++ ":u" ++ toString (n + 1) :=
   ⟨rfl, rfl⟩
 
-/-- *…and nothing else happens*: every other actor is untouched, the spawning parent keeps its status
-    and has received nothing. -/
-theorem spawn_leaves_the_rest_alone (s : Sys) (p : Nat) (key : String) (eid sid : Option String) (blocking : Bool)
-    (hp : p < s.actors.length) :
-    (∀ v, v ≠ p → v < s.actors.length → (spawn s p key eid sid blocking).get v = s.get v) ∧
-    (∀ v, v < s.actors.length → ((spawn s p key eid sid blocking).get v).status = (s.get v).status ∧
-      ((spawn s p key eid sid blocking).get v).received = (s.get v).received) := by
-  have ⟨ha, _⟩ := spawn_actors s p key eid sid blocking
-  have hg : ∀ u, (spawn s p key eid sid blocking).get u = (spawnCore s p key eid sid blocking).get u := get_congr ha
+/-- *…and nothing else happens* (the id is free): every other actor is untouched, the spawning parent keeps
+    its status and has received nothing. -/
+theorem spawn_leaves_the_rest_alone (busy : Option Nat) (s : Sys) (p : Nat) (key : String) (eid sid : Option String)
+    (blocking : Bool) (hp : p < s.actors.length) (hfree : dlookup (mkId (s.get p).id key eid s.fresh) (s.get p).kids = none) :
+    (∀ v, v ≠ p → v < s.actors.length → (spawn busy s p key eid sid blocking).get v = s.get v) ∧
+    (∀ v, v < s.actors.length → ((spawn busy s p key eid sid blocking).get v).status = (s.get v).status ∧
+      ((spawn busy s p key eid sid blocking).get v).received = (s.get v).received) := by
+  have heq : spawn busy s p key eid sid blocking = spawnFresh s p key eid sid blocking := by
+    unfold spawn; rw [evict_free busy s p _ hfree]
+  have ⟨ha, _⟩ := spawnFresh_actors s p key eid sid blocking
+  have hg : ∀ u, (spawn busy s p key eid sid blocking).get u = (spawnCore s p key eid sid blocking).get u := by
+    intro u; rw [heq]; exact get_congr ha u
   have ⟨_, _, _, _, _, c6, c7⟩ := spawnCore_spec s p key eid sid blocking hp
   exact ⟨fun v h1 h2 => by rw [hg]; exact c6 v h1 h2, fun v h => by rw [hg]; exact ⟨(c7 v h).1, (c7 v h).2.1⟩⟩
+
+/-- F51 repaired — *a spawn under an id that is still in use.* From an observation point, when the id of the
+    new child still names the child `old` of the spawning actor `p`:
+    * `old` and every actor below it, at any depth, is completely stopped (status, run loop) and has an empty
+      children map — `previous.stop()` has completed before the new child is created;
+    * the id names the NEW child (uid `s.actors.length`) in `p`'s map; `p` itself keeps running and its map is
+      the old one with that one entry re-pointed;
+    * no other actor starts running, and every other actor that still runs has exactly the children map it
+      had — the only edges that disappear are the one from `p` to `old` and those below `old`, so the only
+      actors that are no longer reachable from the root are the stopped ones of `old`'s subtree. -/
+theorem respawn_stops_and_replaces_previous (busy : Option Nat) (s : Sys) (p : Nat) (key : String) (eid sid : Option String)
+    (blocking : Bool) (old : Nat) (hwf : WF s) (hset : Settled s) (htidy : Tidy s) (hp : p < s.actors.length)
+    (hold : dlookup (mkId (s.get p).id key eid s.fresh) (s.get p).kids = some old) :
+    (∀ d, Desc s old d → Dead (spawn busy s p key eid sid blocking) d ∧ ((spawn busy s p key eid sid blocking).get d).kids = []) ∧
+    dlookup (mkId (s.get p).id key eid s.fresh) ((spawn busy s p key eid sid blocking).get p).kids = some s.actors.length ∧
+    (R s p → R (spawn busy s p key eid sid blocking) p ∧ ((spawn busy s p key eid sid blocking).get p).kids =
+      dinsert (mkId (s.get p).id key eid s.fresh) s.actors.length (derase (mkId (s.get p).id key eid s.fresh) (s.get p).kids)) ∧
+    (∀ u, u < s.actors.length → R (spawn busy s p key eid sid blocking) u → R s u) ∧
+    (∀ u, u < s.actors.length → u ≠ p → R (spawn busy s p key eid sid blocking) u →
+      ((spawn busy s p key eid sid blocking).get u).kids = (s.get u).kids) := by
+  have ⟨h1, h2, h3, h4⟩ := respawn_spec busy s p key eid sid blocking old hwf hset htidy hp hold
+  have ⟨e, hst, _, heq, hid, _⟩ := spawn_eq busy s p key eid sid blocking
+  have hn : e.actors.length = s.actors.length := hst.2.2.2.1
+  have ⟨ha, _⟩ := spawnFresh_actors e p key eid sid blocking
+  have c3 := (spawnCore_spec e p key eid sid blocking (by rw [hn]; exact hp)).2.2.1
+  rw [hn, hid] at c3
+  exact ⟨h1, by rw [heq, get_congr ha]; exact c3,
+    fun hr => ⟨respawn_parent_keeps_running busy s p key eid sid blocking old hwf hp hold hr,
+      h4 (respawn_parent_keeps_running busy s p key eid sid blocking old hwf hp hold hr)⟩, h2, h3⟩
+
+/-- F51, the former counterexample, repaired: spawning twice under one explicit id. The first child (uid 1) is
+    stopped by the second spawn, the children map holds uid 2 under the id, and after the parent's `stop()`
+    nothing runs. -/
+theorem respawned_id_orphans_previous_actor_fixed (fl : Flavor) :
+    let s2 := spawn none (spawn none (init fl true []) 0 "k1" (some "a") none true) 0 "k1" (some "a") none true
+    (s2.get 1).id = (s2.get 2).id ∧ (s2.get 0).kids = [("r:a", 2)] ∧ (s2.get 1).status = .stopped ∧
+    (s2.get 2).status = .running ∧
+    ((settle (stop none s2 0)).get 0).status = .stopped ∧ ((settle (stop none s2 0)).get 2).status = .stopped ∧
+    ((settle (stop none s2 0)).get 1).status = .stopped := by
+  cases fl <;> decide
 
 /-- F52 (sync engine): a non-blocking spawn whose watcher thread has not run yet returns an UNSTARTED
     child; `sendTo` right after the spawn is dropped ("notrunning") and the child has received nothing
     when it finally starts. -/
 theorem sync_lazy_spawn_child_not_started :
-    let s1 := spawn (init .sync false []) 0 "k1" (some "a") none false
+    let s1 := spawn none (init .sync false []) 0 "k1" (some "a") none false
     (s1.get 1).status = .uninit ∧
     (runAction none "C0" 0 s1 (.sendTo "a" "M1" 0 none)).warns = ["notrunning"] ∧
     ((settle (runAction none "C0" 0 s1 (.sendTo "a" "M1" 0 none))).get 1).status = .running ∧
     ((settle (runAction none "C0" 0 s1 (.sendTo "a" "M1" 0 none))).get 1).received = [] := by
   decide
 
-/-- F51: spawning twice under one explicit id. The first child (uid 1) keeps running, is no longer in the
-    children map (which holds uid 2 under the id), and is still running after the parent's `stop()`. -/
-theorem respawned_id_orphans_previous_actor (fl : Flavor) :
-    let s2 := spawn (spawn (init fl true []) 0 "k1" (some "a") none true) 0 "k1" (some "a") none true
-    (s2.get 1).id = (s2.get 2).id ∧ (s2.get 0).kids = [("r:a", 2)] ∧ (s2.get 1).status = .running ∧
-    ((settle (stop none s2 0)).get 0).status = .stopped ∧ ((settle (stop none s2 0)).get 2).status = .stopped ∧
-    ((settle (stop none s2 0)).get 1).status = .running := by
-  cases fl <;> decide
+/-- F52, another face of it (sync engine, watcher thread not yet run): a spawn under an id whose previous
+    holder is still UNSTARTED. `previous.stop()` is a no-op on an unstarted interpreter, so the repair of F51 has
+    nothing to stop: the first child (uid 1) is unlinked, still unstarted, and starts running when its thread is
+    finally scheduled. (`respawn_stops_and_replaces_previous` speaks about observation points, where every
+    child has been started.) -/
+theorem sync_lazy_respawn_previous_not_started :
+    let s2 := spawn none (spawn none (init .sync false []) 0 "k1" (some "a") none false) 0 "k1" (some "a") none false
+    (s2.get 1).status = .uninit ∧ (s2.get 0).kids = [("r:a", 2)] ∧
+    ((settle s2).get 1).status = .running ∧ ((settle s2).get 0).kids = [("r:a", 2)] := by
+  decide
 
 /-! ## 2. addressing: the resolution order of `_resolve_actor_target` -/
 
@@ -136,33 +195,67 @@ theorem resolve_exact_id_second (s : Sys) (p : Nat) (spec : String) (u : Nat) (h
     (h2 : dlookup spec (s.get p).kids = some u) : resolve s p spec = .found u := by
   simp [resolve, h1, h2]
 
-/-- step 3: then a UNIQUE child one of whose id segments (after the first) is the key -/
+/-- step 3: then a UNIQUE child one of whose OWN id segments — those after the id of the sender, its parent — is the key -/
 theorem resolve_unique_segment_third (s : Sys) (p : Nat) (spec : String) (u : Nat) (h1 : dlookup spec s.registry = none)
-    (h2 : dlookup spec (s.get p).kids = none) (h3 : segMatches (s.get p).kids spec = [u]) : resolve s p spec = .found u := by
+    (h2 : dlookup spec (s.get p).kids = none) (h3 : segMatches (s.get p).id (s.get p).kids spec = [u]) :
+    resolve s p spec = .found u := by
   simp [resolve, h1, h2, h3]
 
 /-- …several such children: ambiguous, nothing is addressed -/
 theorem ambiguous_is_dropped (s : Sys) (p : Nat) (spec : String) (u v : Nat) (r : List Nat) (h1 : dlookup spec s.registry = none)
-    (h2 : dlookup spec (s.get p).kids = none) (h3 : segMatches (s.get p).kids spec = u :: v :: r) : resolve s p spec = .ambiguous := by
+    (h2 : dlookup spec (s.get p).kids = none) (h3 : segMatches (s.get p).id (s.get p).kids spec = u :: v :: r) :
+    resolve s p spec = .ambiguous := by
   simp [resolve, h1, h2, h3]
 
-/-- step 4: then the first recorded source key whose actor is still a child -/
+/-- F54 repaired — *which segments count.* A child takes part in the bare-key match of the actor with id `pid`
+    iff the key is among the segments of its id AFTER `pid:`; for the ids a spawn produces
+    (`spawn_id_scheme`: `pid:<explicit id>` and `pid:<key>:u<n>`) these are the segments of the explicit id,
+    resp. `<key>` and `u<n>` — the segments of `pid` itself play no role, however many it has. -/
+theorem segment_match_looks_only_below_the_parent (pid : String) (kids : List (String × Nat)) (spec : String) (u : Nat) :
+    (u ∈ segMatches pid kids spec ↔ ∃ kv ∈ kids, spec ∈ ownSegs pid kv.1 ∧ kv.2 = u) ∧
+    (∀ rest, ownSegs pid (pid ++ ":" ++ rest) = segs rest) ∧
+    (∀ key e n, ownSegs pid (mkId pid key (some e) n) = segs e) ∧
+    (∀ key n, ownSegs pid (mkId pid key none n) = segs (key ++ ":u" ++ toString (n + 1))) := by
+  refine ⟨mem_segMatches pid kids spec u, ownSegs_prefix pid, fun key e n => ownSegs_prefix pid e, fun key n => ?_⟩
+  have : mkId pid key none n = pid ++ ":" ++ (key ++ ":u" ++ toString (n + 1)) := by
+    simp [mkId, String.append_assoc]
+  rw [this]; exact ownSegs_prefix pid _
+
+/-- step 4: then the UNIQUE child still in the map that was spawned from the service `spec` (F53 repaired:
+    the fallback counts its matches) -/
 theorem resolve_source_key_fourth (s : Sys) (p : Nat) (spec : String) (u : Nat) (h1 : dlookup spec s.registry = none)
-    (h2 : dlookup spec (s.get p).kids = none) (h3 : segMatches (s.get p).kids spec = [])
-    (h4 : sourceMatch (s.get p) spec = some u) : resolve s p spec = .found u := by
+    (h2 : dlookup spec (s.get p).kids = none) (h3 : segMatches (s.get p).id (s.get p).kids spec = [])
+    (h4 : sourceMatches (s.get p) spec = [u]) : resolve s p spec = .found u := by
   simp [resolve, h1, h2, h3, h4]
+
+/-- …several children spawned from that service: ambiguous, nothing is addressed; `sendTo` / `forwardTo` /
+    `stopChild` then only warn ("ambiguous", "unresolved") and change nothing -/
+theorem ambiguous_source_key_is_dropped (s : Sys) (p : Nat) (spec : String) (u v : Nat) (r : List Nat)
+    (h1 : dlookup spec s.registry = none) (h2 : dlookup spec (s.get p).kids = none)
+    (h3 : segMatches (s.get p).id (s.get p).kids spec = []) (h4 : sourceMatches (s.get p) spec = u :: v :: r) :
+    resolve s p spec = .ambiguous ∧
+    (∀ busy cur ev delay sid, runAction busy cur p s (.sendTo spec ev delay sid) = (s.warn "ambiguous").warn "unresolved") ∧
+    (∀ busy cur, runAction busy cur p s (.forwardTo spec) = (s.warn "ambiguous").warn "unresolved") ∧
+    (∀ busy cur, runAction busy cur p s (.stopChild spec) = (s.warn "ambiguous").warn "unresolved") := by
+  have hr : resolve s p spec = .ambiguous := by simp [resolve, h1, h2, h3, h4]
+  exact ⟨hr, fun _ _ _ _ _ => by simp [runAction, hr], fun _ _ => by simp [runAction, hr], fun _ _ => by simp [runAction, hr]⟩
+
+/-- what the source-key matches are: the children still in the map whose recorded source key is the key -/
+theorem source_key_matches (a : Actor) (spec : String) (u : Nat) :
+    u ∈ sourceMatches a spec ↔ ∃ kv ∈ a.sources, kv.2 = spec ∧ dlookup kv.1 a.kids = some u :=
+  mem_sourceMatches a spec u
 
 /-- step 5: then `parent` / `#parent` -/
 theorem resolve_parent_last (s : Sys) (p : Nat) (spec : String) (q : Nat) (h1 : dlookup spec s.registry = none)
-    (h2 : dlookup spec (s.get p).kids = none) (h3 : segMatches (s.get p).kids spec = [])
-    (h4 : sourceMatch (s.get p) spec = none) (h5 : spec = "parent" ∨ spec = "#parent") (h6 : (s.get p).parent = some q) :
+    (h2 : dlookup spec (s.get p).kids = none) (h3 : segMatches (s.get p).id (s.get p).kids spec = [])
+    (h4 : sourceMatches (s.get p) spec = []) (h5 : spec = "parent" ∨ spec = "#parent") (h6 : (s.get p).parent = some q) :
     resolve s p spec = .found q := by
   simp [resolve, h1, h2, h3, h4, parentMatch, h5, h6]
 
 /-- otherwise nothing is addressed -/
 theorem resolve_nothing (s : Sys) (p : Nat) (spec : String) (h1 : dlookup spec s.registry = none)
-    (h2 : dlookup spec (s.get p).kids = none) (h3 : segMatches (s.get p).kids spec = [])
-    (h4 : sourceMatch (s.get p) spec = none) (h5 : ¬ (spec = "parent" ∨ spec = "#parent") ∨ (s.get p).parent = none) :
+    (h2 : dlookup spec (s.get p).kids = none) (h3 : segMatches (s.get p).id (s.get p).kids spec = [])
+    (h4 : sourceMatches (s.get p) spec = []) (h5 : ¬ (spec = "parent" ∨ spec = "#parent") ∨ (s.get p).parent = none) :
     resolve s p spec = .none := by
   rcases h5 with h5 | h5
   · simp [resolve, h1, h2, h3, h4, parentMatch, h5]
@@ -184,19 +277,22 @@ theorem sendTo_ambiguous_or_unresolved_changes_nothing (busy : Option Nat) (cur 
   | ambiguous => simp [runAction, hr, Sys.warn]
   | none => simp [runAction, hr, Sys.warn]
 
-/-- F53: two children spawned from the same service under explicit ids: the bare service key is NOT
-    reported ambiguous, the first child gets the message. (With auto ids the same key is ambiguous.) -/
-theorem source_key_first_of_many_wins (fl : Flavor) :
-    let s2 := spawn (spawn (init fl true []) 0 "k1" (some "a") none true) 0 "k1" (some "b") none true
-    let s3 := spawn (spawn (init fl true []) 0 "k1" none none true) 0 "k1" none none true
-    resolve s2 0 "k1" = .found 1 ∧ resolve s3 0 "k1" = .ambiguous := by
+/-- F53, the former counterexample, repaired: two children spawned from the same service under explicit ids:
+    the bare service key is ambiguous (as it always was with auto ids), a `sendTo` only warns and nobody
+    receives anything. -/
+theorem source_key_first_of_many_wins_fixed (fl : Flavor) :
+    let s2 := spawn none (spawn none (init fl true []) 0 "k1" (some "a") none true) 0 "k1" (some "b") none true
+    let s3 := spawn none (spawn none (init fl true []) 0 "k1" none none true) 0 "k1" none none true
+    resolve s2 0 "k1" = .ambiguous ∧ resolve s3 0 "k1" = .ambiguous ∧
+    (runAction none "C" 0 s2 (.sendTo "k1" "M1" 0 none)).warns = ["ambiguous", "unresolved"] ∧
+    (runAction none "C" 0 s2 (.sendTo "k1" "M1" 0 none)).actors = s2.actors := by
   cases fl <;> decide
 
-/-- F54: `r:a` has the single child `r:a:b`. Nothing is called `a` below `r:a`, yet `sendTo("a")` issued by
-    `r:a` resolves to `r:a:b`, because the segment test sees the parent's own segment. -/
-theorem segment_match_sees_parents_own_segments (fl : Flavor) :
-    let s2 := spawn (spawn (init fl true []) 0 "k1" (some "a") none true) 1 "k2" (some "b") none true
-    (s2.get 2).id = "r:a:b" ∧ resolve s2 1 "a" = .found 2 := by
+/-- F54, the former counterexample, repaired: `r:a` has the single child `r:a:b`. Nothing is called `a` below
+    `r:a`: `sendTo("a")` issued by `r:a` does not resolve (while `b` still does). -/
+theorem segment_match_sees_parents_own_segments_fixed (fl : Flavor) :
+    let s2 := spawn none (spawn none (init fl true []) 0 "k1" (some "a") none true) 1 "k2" (some "b") none true
+    (s2.get 2).id = "r:a:b" ∧ resolve s2 1 "a" = .none ∧ resolve s2 1 "b" = .found 2 := by
   cases fl <;> decide
 
 /-! ## 3. delivery: exactly once, to the addressee only, in sending order -/
@@ -296,90 +392,191 @@ theorem parent_stop_stops_subtree (busy : Option Nat) (s : Sys) (x : Nat) (hwf :
   have ⟨hd, hm, hc⟩ := stop_spec busy s x hwf hx hr
   exact ⟨fun d hdesc => desc_down hwf hset htidy hm hc hdesc hx hd, hm.stopped, hm.run⟩
 
+/-- F14 repaired — *…and the system registry*, in full generality: when the registry holds no stopped actor
+    (`RegLive`: true of every reachable state, `registry_never_holds_a_stopped_actor`), after `stop()` of a
+    running actor `x` NO registry entry points to `x` or to any actor below `x`, at any depth. -/
+theorem stop_unregisters_subtree (busy : Option Nat) (s : Sys) (x : Nat) (hwf : WF s) (hset : Settled s) (htidy : Tidy s)
+    (hreg : RegLive s) (hx : x < s.actors.length) (hr : (s.get x).status = .running) :
+    RegLive (stop busy s x) ∧ ∀ d, Desc s x d → ∀ kv ∈ (stop busy s x).registry, kv.2 ≠ d := by
+  have hl : RegLive (stop busy s x) := hreg.step (reg_stop busy s x)
+  refine ⟨hl, fun d hd kv hkv e => ?_⟩
+  have := ((parent_stop_stops_subtree busy s x hwf hset htidy hx hr).1 d hd).1.1
+  exact hl kv hkv (by rw [e]; exact this)
+
 /-- *stopChild stops the child and all its descendants and removes them from the children map and the
-    system registry* — the correct statement for the DIRECT child `x` found under `cid` in the caller's map:
-    the entry (and its source record) is gone, no systemId maps to `x` any more, and `x` with everything
-    below it is completely stopped with empty children maps. -/
+    system registry*: for the child `x` found under `cid` in the caller's map, the entry (and its source
+    record) is gone, and `x` with EVERYTHING below it is completely stopped, has an empty children map and is
+    no longer in the registry under any systemId. -/
 theorem stop_child_removes_subtree (busy : Option Nat) (s : Sys) (p x : Nat) (cid : String)
-    (hwf : WF s) (hset : Settled s) (htidy : Tidy s) (hp : p < s.actors.length)
+    (hwf : WF s) (hset : Settled s) (htidy : Tidy s) (hreg : RegLive s) (hp : p < s.actors.length)
     (hfind : (s.get p).kids.find? (fun kv => kv.2 = x) = some (cid, x)) (hr : (s.get x).status = .running) :
     dlookup cid ((stopChildTo busy s p x).get p).kids = none ∧
-    (∀ kv ∈ (stopChildTo busy s p x).registry, kv.2 ≠ x) ∧
-    (∀ d, Desc s x d → Dead (stopChildTo busy s p x) d ∧ ((stopChildTo busy s p x).get d).kids = []) := by
+    (∀ d, Desc s x d → Dead (stopChildTo busy s p x) d ∧ ((stopChildTo busy s p x).get d).kids = [] ∧
+      ∀ kv ∈ (stopChildTo busy s p x).registry, kv.2 ≠ d) := by
   have hmem : (cid, x) ∈ (s.get p).kids := List.mem_of_find?_eq_some hfind
   have hpx := hwf p (cid, x) hmem
-  have ⟨t, hta, htf, htr, heq⟩ := stopChildTo_eq busy s p x
+  have hl : RegLive (stopChildTo busy s p x) := hreg.step (reg_stopChildTo busy s p x)
+  have ⟨t, hta, htf, _, heq⟩ := stopChildTo_eq busy s p x
   have ⟨w1, w2, w3⟩ := inv_unlinkChild p x hwf hset htidy
   have ⟨c1, c2, c3, c4, c5⟩ := inv_congr (s := unlinkChild s p x) (t := t) hta (htf.trans (unlinkChild_flavor s p x).symm)
   have hxt : x < t.actors.length := by rw [hta, unlinkChild_actors_len]; exact hpx.2
   have hrt : (t.get x).status = .running := by
     apply c5; unfold R; rw [(unlinkChild_status s p x x).1]; exact hr
   have ⟨hd, hm, hc⟩ := stop_spec busy t x (c1 w1) hxt hrt
-  rw [heq]
-  refine ⟨?_, ?_, fun d hdesc => ?_⟩
+  have hdown : ∀ d, Desc s x d → Dead (stop busy t x) d ∧ ((stop busy t x).get d).kids = [] := fun d hdesc =>
+    desc_down (c1 w1) (c2 w2) (c3 w3) hm hc (c4 x d (desc_unlink hwf p x hdesc hpx.1)) hxt hd
+  rw [heq] at hl ⊢
+  refine ⟨?_, fun d hdesc => ⟨(hdown d hdesc).1, (hdown d hdesc).2, fun kv hkv e => ?_⟩⟩
   · have hk : dlookup cid (t.get p).kids = none := by
       rw [get_congr hta p]; exact (unlinkChild_removed s p x cid hp hfind).1
     rcases hm.kids p with e | e
     · rw [e]; exact hk
     · rw [e]; rfl
-  · intro kv hkv
-    have : (stop busy t x).registry = t.registry := registry_stopA busy _ t x
-    rw [this, htr] at hkv
-    simpa using (List.mem_filter.mp hkv).2
-  · exact desc_down (c1 w1) (c2 w2) (c3 w3) hm hc (c4 x d (desc_unlink hwf p x hdesc hpx.1)) hxt hd
+  · exact hl kv hkv (by rw [e]; exact (hdown d hdesc).1.1)
 
-/-- F14, the general "…and the system registry" clause is FALSE of the code: `r` spawns `a`, `a` spawns `b`
-    with systemId `S2`, `r` does stopChild(`a`). `b` (uid 2) is stopped — and still registered. The same
-    after a plain `stop()`: it never unregisters anything. -/
-theorem registry_keeps_stopped_descendant (fl : Flavor) :
-    let s2 := spawn (spawn (init fl true []) 0 "k1" (some "a") none true) 1 "k2" (some "b") (some "S2") true
+/-- F14 repaired, as an invariant: in EVERY state the model can reach — whatever commands, whatever
+    operations, both engines, also in runs that leave the fragment — the system registry holds no stopped
+    actor. (`stop()` sets the status and drops the systemIds together; nothing else stops an actor.) -/
+theorem registry_never_holds_a_stopped_actor (cmds : List (String × List Action)) (fl : Flavor) (eager : Bool)
+    (invoke : List (String × String)) (ops : List Op) : RegLive (run cmds (init fl eager invoke) ops) :=
+  (regLive_init fl eager invoke).step (reg_run cmds _ ops)
+
+/-- …and it is an invariant of every single operation and of every action inside a macrostep -/
+theorem registry_invariant_is_inductive (cmds : List (String × List Action)) (s : Sys) (h : RegLive s) :
+    (∀ op, RegLive (step cmds s op)) ∧ (∀ busy cur p acts, RegLive (runActions busy cur p s acts)) ∧
+    (∀ busy x, RegLive (stop busy s x)) :=
+  ⟨fun op => h.step (reg_step cmds s op), fun busy cur p acts => h.step (reg_runActions busy cur p s acts),
+    fun busy x => h.step (reg_stop busy s x)⟩
+
+/-- hence a systemId never addresses a stopped actor: whatever `resolve` finds through the registry is not stopped -/
+theorem systemId_never_addresses_a_stopped_actor (s : Sys) (h : RegLive s) (p : Nat) (spec : String) (u : Nat)
+    (hreg : dlookup spec s.registry = some u) : resolve s p spec = .found u ∧ (s.get u).status ≠ .stopped :=
+  ⟨resolve_systemId_first s p spec u hreg, h (spec, u) (dlookup_mem hreg)⟩
+
+/-- F14, the former counterexample, repaired: `r` spawns `a`, `a` spawns `b` with systemId `S2`, `r` does
+    stopChild(`a`). `b` (uid 2) is stopped — and no longer registered. The same after a plain `stop()`. -/
+theorem registry_keeps_stopped_descendant_fixed (fl : Flavor) :
+    let s2 := spawn none (spawn none (init fl true []) 0 "k1" (some "a") none true) 1 "k2" (some "b") (some "S2") true
     let s3 := settle (runAction none "C2" 0 s2 (.stopChild "a"))
-    (s3.get 2).status = .stopped ∧ (s3.get 0).kids = [] ∧ dlookup "S2" s3.registry = some 2 ∧
-    dlookup "S2" (settle (stop none s2 0)).registry = some 2 := by
+    dlookup "S2" s2.registry = some 2 ∧
+    (s3.get 2).status = .stopped ∧ (s3.get 0).kids = [] ∧ s3.registry = [] ∧
+    (settle (stop none s2 0)).registry = [] := by
   cases fl <;> decide
+
+/-! ## 5b. the hypotheses of §5 hold in every reachable state -/
+
+/-- one operation preserves the observation-point invariant `I`: the run has left the fragment (`oos`), or
+    `Pre` (`WF`, `Tidy`, parent links = children maps, every actor unstarted / running / completely stopped)
+    and `Settled` hold -/
+theorem observation_invariant_is_inductive (cmds : List (String × List Action)) (s : Sys) (h : I s) (op : Op) :
+    I (step cmds s op) :=
+  i_step cmds s op h
+
+/-- *every reachable state*: from the started root, after any operations with any commands, on either engine
+    and with either thread schedule, as long as no actor has stopped itself or an ancestor through a systemId
+    (`oos`, the one thing the model does not follow), the observation point satisfies `WF`, `Settled`, `Tidy`
+    and `RegLive`. -/
+theorem reachable_inv (cmds : List (String × List Action)) (fl : Flavor) (eager : Bool) (invoke : List (String × String))
+    (ops : List Op) (ho : (run cmds (init fl eager invoke) ops).oos = false) :
+    WF (run cmds (init fl eager invoke) ops) ∧ Settled (run cmds (init fl eager invoke) ops) ∧
+    Tidy (run cmds (init fl eager invoke) ops) ∧ RegLive (run cmds (init fl eager invoke) ops) :=
+  have ⟨a, b, c⟩ := inv_of_I (i_run cmds _ ops (i_init fl eager invoke)) ho
+  ⟨a, b, c, registry_never_holds_a_stopped_actor cmds fl eager invoke ops⟩
+
+/-- §5 without hypotheses about the state: in every reachable state, `stop()` of a running actor `x` leaves
+    every actor below `x` — at any depth — completely stopped, with an empty children map, and in no registry
+    entry. -/
+theorem reachable_stop_stops_and_unregisters_subtree (cmds : List (String × List Action)) (fl : Flavor) (eager : Bool)
+    (invoke : List (String × String)) (ops : List Op) (busy : Option Nat) (x : Nat)
+    (ho : (run cmds (init fl eager invoke) ops).oos = false) (hx : x < (run cmds (init fl eager invoke) ops).actors.length)
+    (hr : ((run cmds (init fl eager invoke) ops).get x).status = .running) :
+    ∀ d, Desc (run cmds (init fl eager invoke) ops) x d →
+      Dead (stop busy (run cmds (init fl eager invoke) ops) x) d ∧
+      ((stop busy (run cmds (init fl eager invoke) ops) x).get d).kids = [] ∧
+      ∀ kv ∈ (stop busy (run cmds (init fl eager invoke) ops) x).registry, kv.2 ≠ d := by
+  have ⟨hwf, hset, htidy, hreg⟩ := reachable_inv cmds fl eager invoke ops ho
+  intro d hd
+  have h1 := (parent_stop_stops_subtree busy _ x hwf hset htidy hx hr).1 d hd
+  exact ⟨h1.1, h1.2, (stop_unregisters_subtree busy _ x hwf hset htidy hreg hx hr).2 d hd⟩
+
+/-- …and `stopChild` of a running child found in the caller's map -/
+theorem reachable_stop_child_removes_subtree (cmds : List (String × List Action)) (fl : Flavor) (eager : Bool)
+    (invoke : List (String × String)) (ops : List Op) (busy : Option Nat) (p x : Nat) (cid : String)
+    (ho : (run cmds (init fl eager invoke) ops).oos = false) (hp : p < (run cmds (init fl eager invoke) ops).actors.length)
+    (hfind : ((run cmds (init fl eager invoke) ops).get p).kids.find? (fun kv => kv.2 = x) = some (cid, x))
+    (hr : ((run cmds (init fl eager invoke) ops).get x).status = .running) :
+    dlookup cid ((stopChildTo busy (run cmds (init fl eager invoke) ops) p x).get p).kids = none ∧
+    (∀ d, Desc (run cmds (init fl eager invoke) ops) x d →
+      Dead (stopChildTo busy (run cmds (init fl eager invoke) ops) p x) d ∧
+      ((stopChildTo busy (run cmds (init fl eager invoke) ops) p x).get d).kids = [] ∧
+      ∀ kv ∈ (stopChildTo busy (run cmds (init fl eager invoke) ops) p x).registry, kv.2 ≠ d) := by
+  have ⟨hwf, hset, htidy, hreg⟩ := reachable_inv cmds fl eager invoke ops ho
+  exact stop_child_removes_subtree busy _ p x cid hwf hset htidy hreg hp hfind hr
 
 /-! ## 6. nothing after stop -/
 
-/-- *…so they receive nothing afterwards.* Whatever operations follow, an actor whose `stop()` has
-    completed stays stopped and its record of processed events never changes. -/
-theorem nothing_delivered_after_stop (cmds : List (String × List Action)) (s : Sys) (u : Nat) (h : Dead s u) (ops : List Op) :
-    Dead (run cmds s ops) u ∧ ((run cmds s ops).get u).received = (s.get u).received :=
-  (quiet_run cmds s ops).2.2 u h
+/-- *…so they receive nothing afterwards.* F50 repaired: the clause holds from the moment `stop()` has set the
+    status — not only once `stop()` has completed, and whatever is still in the actor's queue. Whatever
+    operations follow, the actor stays stopped, its record of processed events never changes, and once its
+    run loop has ended (`Dead`) it stays ended. -/
+theorem nothing_delivered_after_stop (cmds : List (String × List Action)) (s : Sys) (u : Nat)
+    (h : (s.get u).status = .stopped) (ops : List Op) :
+    ((run cmds s ops).get u).status = .stopped ∧ ((run cmds s ops).get u).received = (s.get u).received ∧
+    (Dead s u → Dead (run cmds s ops) u) :=
+  ⟨((quiet_run cmds s ops).2.2 u h).1, ((quiet_run cmds s ops).2.2 u h).2.1, fun hd => ((quiet_run cmds s ops).dead hd).1⟩
+
+/-- the same INSIDE a macrostep, where the async engine hands queues over (`drainAll`: every `await` that
+    really suspends) while some `stop()` is still under way: a stopped actor processes nothing of what is
+    queued for it — at a hand-over, during the rest of the action list, during anybody's `stop()` -/
+theorem stopped_actor_is_frozen_inside_a_macrostep (s : Sys) (u : Nat) (h : (s.get u).status = .stopped) :
+    (∀ busy, ((drainAll busy s).get u).received = (s.get u).received) ∧
+    (∀ busy cur p acts, ((runActions busy cur p s acts).get u).received = (s.get u).received) ∧
+    (∀ busy x, ((stop busy s x).get u).received = (s.get u).received) :=
+  ⟨fun busy => ((quiet_drainAll busy s).2.2 u h).2.1, fun busy cur p acts => ((quiet_runActions busy cur p s acts).2.2 u h).2.1,
+    fun busy x => ((quiet_stop busy s x).2.2 u h).2.1⟩
+
+/-- *events already in the inbox at stop time*: `stop()` of a running actor `x` — whatever `x` has in its
+    queue, whatever its children do while they are stopped — leaves the record of what `x` has processed
+    exactly as it was, and so does everything that follows. -/
+theorem stop_discards_the_queue (cmds : List (String × List Action)) (busy : Option Nat) (s : Sys) (x : Nat)
+    (hx : x < s.actors.length) (hr : (s.get x).status = .running) (ops : List Op) :
+    ((stop busy s x).get x).received = (s.get x).received ∧
+    ((run cmds (stop busy s x) ops).get x).received = (s.get x).received := by
+  have ⟨h1, h2⟩ := stop_own_queue busy s x hx hr
+  exact ⟨h2, (nothing_delivered_after_stop cmds _ x h1 ops).2.1.trans h2⟩
 
 /-- …in particular for every actor of a stopped subtree -/
 theorem stopped_subtree_receives_nothing (cmds : List (String × List Action)) (busy : Option Nat) (s : Sys) (x : Nat)
     (hwf : WF s) (hset : Settled s) (htidy : Tidy s) (hx : x < s.actors.length) (hr : (s.get x).status = .running)
     (d : Nat) (hd : Desc s x d) (ops : List Op) :
     ((run cmds (stop busy s x) ops).get d).received = ((stop busy s x).get d).received :=
-  (nothing_delivered_after_stop cmds _ d ((parent_stop_stops_subtree busy s x hwf hset htidy hx hr).1 d hd).1 ops).2
+  (nothing_delivered_after_stop cmds _ d ((parent_stop_stops_subtree busy s x hwf hset htidy hx hr).1 d hd).1.1 ops).2.1
 
 /-- single operations and single deliveries too (a send to a stopped actor only warns) -/
-theorem send_to_dead_actor_is_dropped (s : Sys) (t : Nat) (ev : String) (h : Dead s t) :
+theorem send_to_stopped_actor_is_dropped (s : Sys) (t : Nat) (ev : String) (h : (s.get t).status = .stopped) :
     ((deliverNow s t ev).get t).received = (s.get t).received ∧ (deliverNow s t ev).warns = s.warns ++ ["notrunning"] := by
-  refine ⟨((quiet_deliverNow s t ev).2.2 t h).2, ?_⟩
+  refine ⟨((quiet_deliverNow s t ev).2.2 t h).2.1, ?_⟩
   unfold deliverNow
-  have hs := h.1
-  cases hfl : s.flavor <;> simp [hs, Sys.warn]
+  cases hfl : s.flavor <;> simp [h, Sys.warn]
 
-/-- F50 (async engine): the clause fails DURING `stop()`. `a` (uid 1) has a child `b`; `r` does
-    sendTo(a, M1), sendTo(a, M2), stopChild(a). While `a.stop()` awaits `b.stop()`, a's run loop — already
-    woken for M1 — processes M1 although a's status is `stopped` and its stop notification has been
-    delivered; M2 is discarded. Without the grandchild both are discarded; the sync engine processes both
-    before the stop. -/
-theorem async_stopped_actor_processes_queued_event :
-    let s2 := spawn (spawn (init .async true []) 0 "k1" (some "a") none true) 1 "k2" (some "b") none true
+/-- F50, the former counterexample, repaired (async engine). `a` (uid 1) has a child `b`; `r` does
+    sendTo(a, M1), sendTo(a, M2), stopChild(a). While `a.stop()` awaits `b.stop()`, a's run loop — already woken
+    for M1 — finds the status `stopped` after `get()`, discards M1 and ends: `a` has processed nothing, exactly
+    as without the grandchild. -/
+theorem async_stopped_actor_processes_queued_event_fixed :
+    let s2 := spawn none (spawn none (init .async true []) 0 "k1" (some "a") none true) 1 "k2" (some "b") none true
     let acts := [Action.sendTo "a" "M1" 0 none, Action.sendTo "a" "M2" 0 none, Action.stopChild "a"]
-    ((cmdOp s2 0 "C" acts).get 1).status = .stopped ∧ ((cmdOp s2 0 "C" acts).get 1).late = ["M1"] ∧
-    ((cmdOp s2 0 "C" acts).get 1).received = ["M1"] ∧
-    (let s1 := spawn (init .async true []) 0 "k1" (some "a") none true
-     ((cmdOp s1 0 "C" acts).get 1).received = [] ∧ ((cmdOp s1 0 "C" acts).get 1).late = []) := by
+    ((cmdOp s2 0 "C" acts).get 1).status = .stopped ∧ ((cmdOp s2 0 "C" acts).get 1).received = [] ∧
+    ((cmdOp s2 0 "C" acts).get 1).alive = false ∧ ((cmdOp s2 0 "C" acts).get 2).status = .stopped ∧
+    (let s1 := spawn none (init .async true []) 0 "k1" (some "a") none true
+     ((cmdOp s1 0 "C" acts).get 1).received = []) := by
   decide
 
 /-! ## non-vacuity: a concrete three-level system satisfies every hypothesis used above -/
 
 /-- `r` with children `a` (systemId S1) and an auto-id `k2`; `a` with child `b` -/
 def exSys (fl : Flavor) : Sys :=
-  spawn (spawn (spawn (init fl true []) 0 "k1" (some "a") (some "S1") true) 0 "k2" none none true) 1 "k2" (some "b") none true
+  spawn none (spawn none (spawn none (init fl true []) 0 "k1" (some "a") (some "S1") true) 0 "k2" none none true) 1 "k2" (some "b") none true
 
 example (fl : Flavor) : invB (exSys fl) = true := by cases fl <;> decide
 example (fl : Flavor) : WF (exSys fl) ∧ Settled (exSys fl) ∧ Tidy (exSys fl) := invB_sound (by cases fl <;> decide)
